@@ -62,6 +62,17 @@ def run(ctx):
                 w2 = m.fetch(sources=[freephil.parse(input_string=s) for s in srcs])
                 if w.as_str(attributes_level=3) != w2.as_str(attributes_level=3):
                     f = "result differs with tracking on"
+            if f is None and i % 3 == 0:
+                # the master itself (a complete copy of the defaults, C07) as a source: every definition of it names a master
+                # parameter, so nothing of it may be reported (defect D46, fixed: the master's own object was skipped unmarked)
+                try:
+                    _, u2 = m.fetch(sources=[m] + ss, track_unused_definitions=True)
+                    got2 = [(u.path, line_of(str(u))) for u in u2]
+                    if got2 != want:
+                        f = "with the master object as first source: reported %r, unused definitions are %r" % (got2, want)
+                    ctx.count("master_as_source")
+                except (Exception, freephil.Sorry):
+                    pass
         else:
             ctx.case((mt, tuple(srcs)), nontrivial=False)
         case = {"master": mt, "sources": srcs}
